@@ -102,11 +102,18 @@ def run(ctx):
             for c in fn.calls("from_ordinal"):
                 a = peel(c["a"][0], NO_T)
                 masked = a.get("k") == "bin" and a["op"] == "BitAnd"
-                callers[c["p"]].add(masked)
+                if masked and c["p"] in covered:
+                    callers[c["p"]].add("masked")
+                elif error_checked(fn, c):
+                    callers[c["p"]].add("checked")
+                else:
+                    callers[c["p"]].add("raw")
         keep = []
         for e in edges:
-            if e.kind == "diverge" and e.fn in covered and callers.get(e.fn) == {True}:
-                ctx.ob("W7", e.key, True, e.where, "masked-ordinal: every caller in the reader passes `x & MASK` and the literal arms cover 0..=MASK")
+            st = callers.get(e.fn)
+            if e.kind == "diverge" and st and st <= {"masked", "checked"}:
+                ctx.ob("W7", e.key, True, e.where, "ordinal argument: every caller in the reader passes `x & MASK` with the literal arms covering 0..=MASK, or a value "
+                       "whose read was followed by a has_error() test (a cut-off image cannot reach the conversion)")
                 continue
             keep.append(e)
         C11.audit_edges(ctx, "W7", F, keep, "panic_audit_C18.json", ".rfsm reader")
@@ -188,6 +195,31 @@ def run(ctx):
                       if par.get("k") == "assign" and const_eval(par["r"]) is True]
         ctx.ob("W9", "ok never set back to true", not never_true, "", "%d assignment(s) ok = true outside the constructor" % len(never_true))
     ctx.guard("W9", w9)
+
+
+def error_checked(fn, call):
+    """The call is dominated by the no-error branch of a has_error() test, and no read lies between the test and the call."""
+    blocks = hir_call_blocks(fn, call)
+    if not blocks:
+        return False
+    cfg = fn.cfg
+    reads = [bi for bi, t in fn.mir_calls() if "ProtocolReader::read_" in t["f"] or ("FsmReader" in t["f"] and "::read_" in t["f"])]
+    for bi, t in fn.mir_calls("ProtocolReader::has_error"):
+        d = t["d"] if isinstance(t["d"], int) else t["d"][0]
+        for sb in cfg.reachable_from(t["t"]):
+            tt = fn.blocks[sb]["t"]
+            if tt["k"] != "switch":
+                continue
+            pl = tt["op"].get("mv", tt["op"].get("cp"))
+            l = pl if isinstance(pl, int) else (pl[0] if pl else None)
+            if l != d:
+                continue
+            for ft in [tb for v, tb in tt["vals"] if v == "0"]:
+                if set(cfg.pred[ft]) == {sb} and all(cfg.dominates(ft, b) for b in blocks):
+                    later = [r for r in reads if r in cfg.reachable_from(ft) and any(b in cfg.reachable_from(r) for b in blocks) and r not in blocks]
+                    if not later:
+                        return True
+    return False
 
 
 def place_is_ret(d):
